@@ -131,6 +131,11 @@ def run(ctx):
             if not (dt.date(2001, 1, 1) <= nd <= dt.date(2099, 12, 31)):
                 nd = d
             jobs.append((pat + rng.choice([".INC0", ".INC0", "", ".PATCH"]), dict(patch=1), d, glue.flags(pin_date=rng.random() < 0.1), nd, rng.choice(["cli", "lib"])))
+        # ... and anywhere in the year: the bump date days, weeks, a quarter or two before / after the current version (the from-the-future guard must hold for every part)
+        for _ in range(ctx.pick(14, 200)):
+            d = dt.date(rng.randrange(2002, 2098), rng.randrange(1, 13), rng.randrange(1, 29))
+            nd = d + dt.timedelta(days=rng.choice([-200, -100, -45, -10, -1, 1, 10, 45, 100, 200]))
+            jobs.append((pat + rng.choice([".INC0", ".BUILD", ".PATCH"]), dict(patch=1, bid="1001"), d, glue.flags(patch=rng.random() < 0.3 and False), nd, "lib"))
     ievents = [e for e in drive.pmap(c05._case, jobs, hooks=False, chunksize=100) if e]
     for i, e in enumerate(ievents):
         e["id"] = i + 1
